@@ -9,7 +9,7 @@ TRUSTED = [
     "patterns of the seed, every blinding factor / recovered mask and (at 64 bits) every value",
     "what zeroize's volatile writes, the compiler and the allocator do is runtime behaviour; optimised builds elide some temporaries and are not what is observed",
 ]
-PHASES = ["prove", "verify_recover", "drop_masks", "drop_witness", "drop_opening", "drop_mask", "drop_statement"]
+PHASES = ["prove", "verify_recover", "drop_masks", "drop_witness", "drop_opening", "drop_mask", "drop_statement", "drop_opening_spare", "drop_mask_spare", "prove_drop_witness_spare", "drop_witness_vec_spare"]
 
 
 def run(run: Run):
@@ -58,11 +58,13 @@ def run(run: Run):
                               dict(rp, phase=ph, dirty=dirty[:20]))
         if seeded and rec.get("inline_seed_cleared") is not True:
             run.violation("the seed held inline in a statement is not cleared when the statement is dropped", rp)
+        if rec.get("prove_spare_ok") is not True:
+            run.violation("generator: proving from a witness built from truncated / drained vectors failed", rp)
         if seeded and rec.get("recovered") != [True]:
             run.violation("generator: recovery did not return a mask", rp)
     return run.finish(
         "proof",
-        "prove, recovering verify, drop of the recovered masks and drops of witness / opening / mask / statement for a spread of (bits, aggregation, extension degree, seeded) configurations in a "
+        "prove, recovering verify, drop of the recovered masks and drops of witness / opening / mask / statement (also when built from vectors whose spare capacity still holds secrets after truncate / drain) for a spread of (bits, aggregation, extension degree, seeded) configurations in a "
         "binary built at opt-level 0 with an interposing allocator; every freed block is scanned for the seed, every blinding factor / mask and (at 64 bits) every value; the multiset of dirty frees "
         "must equal the model's (empty); distinct by (bits, m, T, seeded, phase, dirty?)",
         ["derived temporaries (bit vectors, nonces) are covered by the discipline model only; a_lo_offset / a_hi_offset are plain in the source and not claimed (DESIGN.md section 5/C20)"],
